@@ -83,4 +83,11 @@ def kmedoids_units(exclude=()):
                  mutants=[('hybrid-drops-kcenters-state', 'enspara/cluster/hybrid.py', "            X, distance_method, n_iters, cluster_center_inds, assignments,\n            distances, args=args", "            X, distance_method, n_iters, cluster_center_inds, assignments,\n            distances * 2, args=args")] if cfg == 'both' else [])
         u.cfg = cfg
         out.append(u)
+    # the state the sweeps start from, for each form in which kmedoids() accepts it
+    from contracts import kmedoids_inputs as KI
+    KMF = 'enspara/cluster/kmedoids.py'
+    mut = [('pair-offset-includes-own-trajectory', KMF, "        cluster_center_inds = [sum(X_lengths[:cluster_center_inds[i][0]]) \\\n", "        cluster_center_inds = [sum(X_lengths[:cluster_center_inds[i][0] + 1]) \\\n"),
+           ('pair-frame-dropped', KMF, "                               + cluster_center_inds[i][1] for i in \\\n", "                               + 0 * cluster_center_inds[i][1] for i in \\\n")]
+    for v in ('flat', 'pairs', 'inferred', 'labels-without-distances'):
+        out.append(Unit('kmedoids-inputs[%s]' % v, KI.registry(v), keys=[KI.KM + '_kmedoids_inputs_tree'], mutants=(mut if v == 'pairs' else [])))
     return out
